@@ -192,3 +192,26 @@ DCS_LEMMA(DCS_Rayl, FF_Rayl, * F, DCS_Thoms, theta, ND_ANGLE(theta), theta)
 DCS_LEMMA(DCS_Compt, SF_Compt, , DCS_KN, E C theta, ND_ANGLE(theta), theta)
 DCS_LEMMA(DCSP_Rayl, FF_Rayl, * F, DCSP_Thoms, theta C phi, ND_ANGLE(theta); ND_ANGLE(phi), theta C phi)
 DCS_LEMMA(DCSP_Compt, SF_Compt, , DCSP_KN, E C theta C phi, ND_ANGLE(theta); ND_ANGLE(phi), theta C phi)
+
+/* ------------------------------------------------------------------ C08: Kissel barn twins of all variants, un-suffixed aliases */
+KBARN_LEMMA(CSb_FluorLine_Kissel_Cascade, CS_FluorLine_Kissel_Cascade, A_ZLE, Z C line C E)
+KBARN_LEMMA(CSb_FluorShell_Kissel_Cascade, CS_FluorShell_Kissel_Cascade, A_ZSE, Z C shell C E)
+KBARN_LEMMA(CSb_FluorLine_Kissel_Nonradiative_Cascade, CS_FluorLine_Kissel_Nonradiative_Cascade, A_ZLE, Z C line C E)
+KBARN_LEMMA(CSb_FluorShell_Kissel_Nonradiative_Cascade, CS_FluorShell_Kissel_Nonradiative_Cascade, A_ZSE, Z C shell C E)
+KBARN_LEMMA(CSb_FluorLine_Kissel_Radiative_Cascade, CS_FluorLine_Kissel_Radiative_Cascade, A_ZLE, Z C line C E)
+KBARN_LEMMA(CSb_FluorShell_Kissel_Radiative_Cascade, CS_FluorShell_Kissel_Radiative_Cascade, A_ZSE, Z C shell C E)
+KBARN_LEMMA(CSb_FluorLine_Kissel_no_Cascade, CS_FluorLine_Kissel_no_Cascade, A_ZLE, Z C line C E)
+KBARN_LEMMA(CSb_FluorShell_Kissel_no_Cascade, CS_FluorShell_Kissel_no_Cascade, A_ZSE, Z C shell C E)
+#define ALIAS_LEMMA(fa, f, DECLS, ARGS) \
+LEMMA(lemma_##fa) \
+{ \
+  DECLS; ND_ERRSLOT(error); \
+  GHOST_RESET(); \
+  double t = fa(ARGS, error); \
+  VASSERT(SAME(t, LEAF_##f(ARGS)), #fa " returns exactly what " #f " returns"); \
+  VASSERT(LEAFOK_##f(ARGS) ? NO_ERROR(error) : ONE_ERROR(error), #fa " fails exactly when " #f " fails"); \
+  if (LEAFOK_##f(ARGS)) { VCANARY(#fa " defined"); } \
+  ERRSLOT_DONE(error); \
+}
+ALIAS_LEMMA(CS_FluorLine_Kissel, CS_FluorLine_Kissel_Cascade, A_ZLE, Z C line C E)
+ALIAS_LEMMA(CS_FluorShell_Kissel, CS_FluorShell_Kissel_Cascade, A_ZSE, Z C shell C E)
